@@ -88,7 +88,7 @@ def compile_unit_ll(bdir, unit, defines):
         if ev['err']: raise ToolError(ev['err'])
         return ev['path']
     try:
-        udir = os.path.join(bdir, '..', '_units_' + key[1])
+        udir = os.path.normpath(os.path.join(bdir, '..', '_units_' + key[1]))
         os.makedirs(udir, exist_ok=True)
         out = os.path.join(udir, unit.replace('/', '__') + '.ll')
         src = os.path.join(SRC, unit)
@@ -136,7 +136,7 @@ class Job:
     def __init__(s, prop, name, src, root, units=(), defines=None, unwind=2, unwindset=None, flags=(),
                  backend='sat', timeout=600, mem_gb=12, tier='quick', stub=None, desc='', object_bits=None,
                  tv=20, covers=(), realloc_copy_max=None, extra_c=(), no_checks=False, arena=None,
-                 expect_fail=(), gxx_extra=(), unit_defines=None, gxx_units=()):
+                 expect_fail=(), gxx_extra=(), unit_defines=None, gxx_units=(), gxx_exclude=()):
         s.prop = prop; s.name = name; s.src = src; s.root = root; s.units = list(units)
         s.defines = dict(defines or {}); s.unwind = unwind; s.unwindset = dict(unwindset or {})
         s.flags = list(flags); s.backend = backend; s.timeout = timeout; s.mem_gb = mem_gb; s.tier = tier
@@ -144,7 +144,7 @@ class Job:
         s.desc = desc; s.object_bits = object_bits; s.tv = tv; s.covers = list(covers)
         s.realloc_copy_max = realloc_copy_max; s.extra_c = list(extra_c); s.no_checks = no_checks
         s.arena = arena; s.expect_fail = list(expect_fail); s.gxx_extra = list(gxx_extra)
-        s.unit_defines = dict(unit_defines or {}); s.gxx_units = list(gxx_units)
+        s.unit_defines = dict(unit_defines or {}); s.gxx_units = list(gxx_units); s.gxx_exclude = list(gxx_exclude)
 
 def backend_flags(b, bdir):
     env = dict(os.environ)
@@ -236,16 +236,49 @@ def run_cbmc(job, gb, bdir, witness=False):
     r['raw'] = out
     return r
 
-def build_concrete(job, bdir, built):
+_obj_lock = threading.Lock()
+_obj_done = {}
+def compile_unit_obj(bdir, unit, defines, extra=()):
+    """g++ -c one /repo unit, once per (unit, defines, extra flags) per run"""
+    key = (unit, defs_key(dict(defines, __extra=' '.join(extra))))
+    with _obj_lock:
+        ev = _obj_done.get(key)
+        owner = ev is None
+        if owner:
+            ev = {'ev': threading.Event(), 'path': None, 'err': None}; _obj_done[key] = ev
+    if not owner:
+        ev['ev'].wait()
+        if ev['err']: raise ToolError(ev['err'])
+        return ev['path']
+    try:
+        odir = os.path.normpath(os.path.join(bdir, '..', '_objs_' + key[1])); os.makedirs(odir, exist_ok=True)
+        out = os.path.join(odir, unit.replace('/', '__') + '.o')
+        must(['g++'] + GXXFLAGS + list(extra) + ['-D%s=%s' % kv for kv in sorted(defines.items())] + ['-c', os.path.join(SRC, unit), '-o', out])
+        ev['path'] = out
+    except Exception as e:
+        ev['err'] = str(e); raise
+    finally:
+        ev['ev'].set()
+    return ev['path']
+
+SAN = ['-fsanitize=address,undefined', '-fno-sanitize-recover=undefined', '-g']
+
+def build_concrete(job, bdir, built, sanitize=False):
     """g++ build of the harness + the real units + concrete vp runtime -> executable"""
-    exe = os.path.join(bdir, 'real.exe')
+    exe = os.path.join(bdir, 'real_san.exe' if sanitize else 'real.exe')
     dfl = ['-D%s=%s' % kv for kv in sorted({**job.unit_defines, **job.defines}.items())]
     mainc = os.path.join(bdir, 'main_cc.cc')
     open(mainc, 'w').write('extern "C" void %s();\nint main() { %s(); return 0; }\n' % (job.root, job.root))
     rtc = os.path.join(bdir, 'rt_concrete.o')
     must(['gcc', '-O1', '-c', os.path.join(RT, 'rt_concrete.c'), '-o', rtc])
-    srcs = [os.path.join(HARN, job.src)] + [os.path.join(SRC, u) for u in (all_units() if job.units == ['ALL'] else job.units + job.gxx_units)]
-    must(['g++'] + GXXFLAGS + dfl + srcs + [mainc, rtc] + job.gxx_extra + ['-o', exe])
+    if job.units == ['ALL'] or job.gxx_units == ['ALL']:
+        units = [u for u in all_units() if u not in job.gxx_exclude]
+    else:
+        units = job.units + job.gxx_units
+    xf = SAN if sanitize else []
+    with ThreadPoolExecutor(12) as ex:
+        objs = list(ex.map(lambda u: compile_unit_obj(bdir, u, job.unit_defines, xf), units))
+    must(['g++'] + GXXFLAGS + xf + dfl + [os.path.join(HARN, job.src)] + objs + [mainc, rtc] + job.gxx_extra + (['-lgmp'] if len(units) > 20 else []) + ['-o', exe])
     return exe
 
 def build_generated(job, bdir, built):
@@ -281,16 +314,9 @@ def translation_validation(job, bdir, built, seed, n):
     return res
 
 def replay_on_real(job, bdir, built, values, path=None, sanitize=False):
-    exe = os.path.join(bdir, 'real.exe')
-    if sanitize:
-        job2 = Job(**{**job.__dict__}) if False else job
-    if not os.path.exists(exe) or sanitize:
-        save = list(job.gxx_extra)
-        if sanitize: job.gxx_extra = save + ['-fsanitize=address,undefined', '-fno-sanitize-recover=undefined', '-g']
-        try:
-            exe = build_concrete(job, bdir, built)
-        finally:
-            job.gxx_extra = save
+    exe = os.path.join(bdir, 'real_san.exe' if sanitize else 'real.exe')
+    if not os.path.exists(exe):
+        exe = build_concrete(job, bdir, built, sanitize)
     path = path or os.path.join(bdir, 'replay.txt')
     open(path, 'w').write('\n'.join(str(v) for v in values) + '\n')
     env = dict(os.environ); env['VP_REPLAY_FILE'] = path; env.pop('VP_SEED', None)
